@@ -347,3 +347,74 @@ func RunAddUnderLoad(w *World, idx int) {
 		}
 	}
 }
+
+// RunRendezvous: the replicas' answers to one write / flush / unmap arrive at the
+// same instant (the fakes spin on a barrier before returning), some failing and
+// some succeeding - the window in which the fan-out code collects per-replica
+// results concurrently. Per operation the usual clauses apply (acknowledged
+// only with a majority, failed replicas detached, healthy ones kept, a failing
+// minority does not surface); detached replicas are replaced and the next
+// trial follows.
+func RunRendezvous(w *World, idx int) {
+	r := w.R
+	if w.RF < 2 {
+		RunIO(w, idx)
+		return
+	}
+	w.Cfg = map[string]interface{}{"rf": w.RF, "scenario": "rendezvous"}
+	if !w.BringUp(w.RF, false) {
+		return
+	}
+	trials := r.Range(30, 80)
+	for t := 0; t < trials && !w.Dead; t++ {
+		fs, modes := w.Attached()
+		var rw []*Fake
+		for _, f := range fs {
+			if modes[f] == types.RW {
+				rw = append(rw, f)
+			}
+		}
+		if len(rw) < w.RF {
+			if len(rw) == 0 {
+				break
+			}
+			if modeCount(w.C.VerifState(), types.WO) == 0 {
+				if !w.AddSynced(w.NewFake(1)) {
+					break
+				}
+			} else {
+				break
+			}
+			continue
+		}
+		// a failing subset that leaves at least one replica succeeding
+		faults := map[*Fake]Outcome{}
+		nf := r.Range(1, len(fs)-1)
+		for len(faults) < nf {
+			faults[fs[r.Intn(len(fs))]] = ErrNotApplied
+		}
+		kind := []string{"write", "write", "write", "sync", "unmap"}[r.Intn(5)]
+		o, l := w.RandRange()
+		w.rdv = &rendezvous{n: int32(len(fs))}
+		w.IO(kind, o, l, faults)
+		w.rdv = nil
+		w.Res.Count("rendezvous_operations", 1)
+		w.CheckSettled("rendezvous-" + kind)
+		if w.Dead {
+			return
+		}
+		if st := w.C.VerifState(); st.ReadOnly {
+			// below quorum: bring replacements until writes are possible again
+			for k := 0; k < w.RF && !w.Dead; k++ {
+				st = w.C.VerifState()
+				if modeCount(st, types.RW) == 0 || modeCount(st, types.RW) >= w.RF {
+					break
+				}
+				if !w.AddSynced(w.NewFake(1)) {
+					break
+				}
+			}
+		}
+	}
+	w.CheckImages()
+}
